@@ -123,3 +123,82 @@ Proof.
   specialize (H LN).
   destruct (wloop R (firstn n recs) (mkW [] 0 [] (RStream rr [] []) 0)); [reflexivity| |]; destruct H as (b' & ->); reflexivity.
 Qed.
+
+(* ---------- the limited path (rangeWithLimit, no retry) under an iterator fault ---------- *)
+Lemma wloop_prefix_limit R : forall recs n st st', wloop R (firstn n recs) st = WLimit st' -> wloop R recs st = WLimit st'.
+Proof.
+  induction recs as [|[ik v] t IH]; intros n st st' H.
+  - destruct n; exact H.
+  - destruct n as [|n].
+    + cbn [firstn wloop] in H. cbn [wloop].
+      destruct (negb (rcv_need_more (w_rc st))); [exact H|discriminate].
+    + cbn [firstn wloop] in H. cbn [wloop].
+      destruct (negb (rcv_need_more (w_rc st))); [exact H|].
+      destruct (decode ik) as [| |k r]; [discriminate|apply (IH n); exact H|apply (IH n); exact H].
+Qed.
+
+Lemma wloop_prefix_panic R : forall recs n st, wloop R (firstn n recs) st = WPanic -> wloop R recs st = WPanic.
+Proof.
+  induction recs as [|[ik v] t IH]; intros n st H.
+  - destruct n; exact H.
+  - destruct n as [|n].
+    + cbn [firstn wloop] in H. destruct (negb (rcv_need_more (w_rc st))); discriminate.
+    + cbn [firstn wloop] in H. cbn [wloop].
+      destruct (negb (rcv_need_more (w_rc st))); [discriminate|].
+      destruct (decode ik) as [| |k r]; [reflexivity|apply (IH n); exact H|apply (IH n); exact H].
+Qed.
+
+(* one attempt, no retry: the fault-free range answer or the iterator error, nothing in between *)
+Theorem range_limited_fault_all_or_error s fv parts start end_ R limit fault : (0 < limit)%Z ->
+  range_limited_fault s fv start end_ R limit fault = RfIterErr \/
+  range_limited_fault s fv start end_ R limit fault = RfRes (range s fv parts start end_ R limit).
+Proof.
+  intros L. unfold range_limited_fault, range.
+  replace (0 <? limit)%Z with true by (symmetry; apply Z.ltb_lt; exact L).
+  destruct (floor_check fv R); [|right; reflexivity|right; reflexivity].
+  set (recs := iter s start end_). set (rc := RCommon limit []).
+  assert (F : (match worker_run R recs rc with WRPanic => RfRes RgPanic | WROk _ rc' => RfRes (RgOk (rcv_result rc')) end)
+              = RfRes (match worker_run R recs rc with WRPanic => RgPanic | WROk _ rc0 => RgOk (rcv_result rc0) end))
+    by (destruct (worker_run R recs rc); reflexivity).
+  destruct fault as [n|]; [|right; exact F].
+  destruct (length recs <? n)%nat; [right; exact F|].
+  destruct (wloop R (firstn n recs) (mkW [] 0 [] (rcv_reset rc) 0)) as [|st|st] eqn:E.
+  - right. unfold worker_run. rewrite (wloop_prefix_panic R recs n _ E). reflexivity.
+  - right. unfold worker_run. rewrite (wloop_prefix_limit R recs n _ _ E). reflexivity.
+  - left. reflexivity.
+Qed.
+
+Theorem list_limited_fault_all_or_error s fv parts cur a b rev limit fault : (0 < limit < max_i64)%Z ->
+  list_limited_fault s fv cur a b rev limit fault = LErr 4 \/
+  list_limited_fault s fv cur a b rev limit fault = list_model s fv parts cur a b rev limit.
+Proof.
+  intros [L1 L2]. unfold list_limited_fault, list_model.
+  destruct b as [|b0 bt]; [right; reflexivity|].
+  destruct (negb (bltb a (b0 :: bt))); [right; reflexivity|].
+  replace (0 <? limit)%Z with true by (symmetry; apply Z.ltb_lt; exact L1).
+  replace (limit =? max_i64)%Z with false by (symmetry; apply Z.eqb_neq; lia).
+  assert (L3 : (0 < limit + 1)%Z) by lia.
+  replace (0 <? limit + 1)%Z with true by (symmetry; apply Z.ltb_lt; exact L3).
+  cbn [negb andb].
+  destruct (range_limited_fault_all_or_error s fv parts (encode a 0) (encode (b0 :: bt) 0) (if rev =? 0 then cur else rev) (limit + 1)%Z fault L3) as [E|E];
+    rewrite E; [left; reflexivity|right].
+  destruct (range s fv parts (encode a 0) (encode (b0 :: bt) 0) (if rev =? 0 then cur else rev) (limit + 1)%Z); reflexivity.
+Qed.
+
+(* with C03_range: on a well-formed store the faulted limited List answers the specification's cut snapshot or an error *)
+From KB Require Import Proofs.ReadSysSpec.
+
+Theorem list_limited_fault_spec (Vs : list (@vrec (option bytes))) fv cur a b rev (limit : Z) fault :
+  wf_store Vs -> no_marker Vs -> alpha a -> alpha b -> bcmp a b = Lt ->
+  floor_check fv (eff rev cur) = FOk -> (0 < limit < max_i64)%Z ->
+  let S := in_range a b (snapshot_spec Vs (eff rev cur)) in
+  let out := list_limited_fault (raw_of (enc_store Vs)) fv cur a b rev limit fault in
+  out = LErr 4 \/ out = LResp cur (firstn (Z.to_nat limit) S) (limit <? Z.of_nat (length S))%Z.
+Proof.
+  intros W M A B C F L S out.
+  destruct (list_limited_fault_all_or_error (raw_of (enc_store Vs)) fv single_part cur a b rev limit fault L) as [E|E];
+    [left; exact E|right].
+  unfold out. rewrite E.
+  rewrite (c03_range Vs fv cur a b rev limit W M A B C F (conj (Z.lt_le_incl _ _ (proj1 L)) (proj2 L))).
+  replace (0 <? limit)%Z with true by (symmetry; apply Z.ltb_lt; exact (proj1 L)). reflexivity.
+Qed.
